@@ -87,6 +87,13 @@ def rejects_nonpositive(test: ast.AST, var: str) -> bool:
 
 
 def any_nonpositive_guard(test: ast.AST, seq: str) -> bool:
+    # a disjunction raises as soon as one disjunct holds: one disjunct being the any-guard is enough
+    if isinstance(test, ast.BoolOp) and isinstance(test.op, ast.Or):
+        return any(_any_nonpositive_guard(v, seq) for v in test.values)
+    return _any_nonpositive_guard(test, seq)
+
+
+def _any_nonpositive_guard(test: ast.AST, seq: str) -> bool:
     """``any(n <= 0 for n in seq)`` (or an equivalent not all(n > 0 ...))."""
     neg = False
     t = test
@@ -192,6 +199,19 @@ def check_entry_point(ctx, ci, m):
             ok_any = any(cfg.dominates(g, n) for g in any_guards)
             ctx.check(ok_len, R1, cons + ":length-guard", "a length-mismatch guard raising ValueError dominates execution", f"the batch is executed without a dominating check that {seq} has one entry per circuit", where)
             ctx.check(ok_any, R1, cons + ":positivity-guard", "an any-non-positive guard raising ValueError dominates execution", f"the batch is executed without a dominating check that every entry of {seq} is positive (for every form of n_samples): a bad entry is discovered only after earlier circuits ran", where)
+            # an integer count is broadcast to len(batch) entries, so for an *empty* batch the any-guard above is vacuous:
+            # the documented "ValueError for integral n_samples if it is not positive" then needs a guard on the scalar itself
+            if ci.key == BASE:
+                def _scalar_guard(t) -> bool:
+                    parts = t.values if isinstance(t, ast.BoolOp) else [t]
+                    for prt in parts:
+                        sub = prt.values if isinstance(prt, ast.BoolOp) else [prt]
+                        if any(isinstance(x, ast.Compare) and norm(x.left) == sample and rejects_nonpositive(x, sample) for x in sub):
+                            return True
+                    return False
+                scalar_guards = guard_nodes(cfg, _scalar_guard)
+                ok_scalar = any(cfg.dominates(g, n) for g in scalar_guards)
+                ctx.check(ok_scalar, R1, cons + ":scalar-guard", "a non-positive integer count is rejected whatever the batch length", f"an integer `{sample}` is only checked through its broadcast copy `len(batch) * [{sample}]`: for an empty batch that list is empty, so run_batch_and_measure([], 0) and ([], -3) return [] instead of raising ValueError", where)
             # the per-circuit list derives from n_samples for both forms
             if seq_arg is not None and isinstance(seq_arg, ast.Name):
                 sdef = d.single_def(seq_arg.id)
